@@ -45,13 +45,13 @@ Definition p_drain (d : cstate) : list comment * cstate :=
   (rev (c_lead d), {| c_all := c_all d; c_lead := [] |}).
 
 Definition p_line_end (d : cstate) (semi : N) (g : list comment) (next_start : option N)
-  : option comment * list comment * cstate :=
+           (c : list comment) : list comment * list comment * cstate :=
   let cleared := {| c_all := c_all d; c_lead := [] |} in
   match g with
-  | [] => (None, g, match next_start with Some _ => cleared | None => d end)
+  | [] => (c, g, match next_start with Some _ => cleared | None => d end)
   | (pos, text) :: g' =>
-      if line_of semi =? line_of pos then (Some (pos, text), g', cleared)
-      else (None, g, cleared)
+      if line_of semi =? line_of pos then (c ++ [(pos, text)], g', cleared)
+      else (c, g, cleared)
   end.
 
 Definition policy_ops : ops N (list comment) cstate (list comment) comment :=
@@ -60,7 +60,6 @@ Definition policy_ops : ops N (list comment) cstate (list comment) comment :=
      d_drain := p_drain;
      d_line_end := p_line_end;
      c_empty := [];
-     c_push := fun c cm => c ++ [cm];
      a_plus2 := fun p => p + 2 |}.
 
 End Policy.
